@@ -516,7 +516,8 @@ func (s *serverStream) SetTrailer(md metadata.MD) {
 	s.wmu.Lock()
 	defer s.wmu.Unlock()
 
-	s.tr = append(s.tr, md)
+	// keep a copy: the handler may go on using (and changing) its map
+	s.tr = append(s.tr, md.Copy())
 }
 
 func (s *serverStream) Context() context.Context {
